@@ -1,8 +1,8 @@
 (* line-protocol driver for the extracted Lmmx type checker (coq/theories/Lmmt/Check.v) and the reference semantics
    (coq/theories/Lmmx/Ref.v).
    input line:  FUEL N K v(0,0) ... v(N-1,K-1) | <annotations> | <program s-expr>
-   annotations := (ann (par (x TY) ..) (ret (f TY) ..))
-   TY := F | U | (T TY ..) | (R (f TY) ..) | (Fn (TY ..) TY)
+   annotations := (ann (par (x TY) ..) (ret (f TY) ..) (sums (NAME OPT ..) ..))      OPT := - | TY   [payload per constructor]
+   TY := F | U | (T TY ..) | (R (f TY) ..) | (Fn (TY ..) TY) | (S NAME)       [a declared sum type, expanded from `sums`]
    program: as for ocaml/lmmx_drv.ml
    output line: JSON {"tc":"ok","inputs":k,"ret_words":n,"lenient":L,"run":RUN} | {"tc":"reject","lenient":L,"run":RUN} | {"error":".."}
      "tc": the checker (strict configuration mkAnn);  L = "ok" | "reject": the lenient configuration (mkLenient)
@@ -104,17 +104,23 @@ let prog_of = function
         x_outs = List.map expr_of os }
   | _ -> failwith "prog"
 
-let rec ty_of = function
+let rec ty_of sums = function
   | A "F" -> TNum
   | A "U" -> TUnit
-  | L (A "T" :: ts) -> TTup (List.map ty_of ts)
-  | L (A "R" :: fs) -> TRec (List.map (function L [f; t] -> (idn f, ty_of t) | _ -> failwith "rty") fs)
-  | L [A "Fn"; L ps; r] -> TFn (List.map ty_of ps, ty_of r)
+  | L (A "T" :: ts) -> TTup (List.map (ty_of sums) ts)
+  | L (A "R" :: fs) -> TRec (List.map (function L [f; t] -> (idn f, ty_of sums t) | _ -> failwith "rty") fs)
+  | L [A "Fn"; L ps; r] -> TFn (List.map (ty_of sums) ps, ty_of sums r)
+  | L [A "S"; nm] -> (match List.assoc_opt (num nm) sums with Some cs -> TSum (idn nm, cs) | None -> failwith "undeclared sum type")
   | _ -> failwith "ty"
 let ann_of = function
-  | L [A "ann"; L (A "par" :: ps); L (A "ret" :: rs)] ->
-      let ent = function L [x; t] -> (idn x, ty_of t) | _ -> failwith "ann entry" in
-      (List.map ent ps, List.map ent rs)
+  | L (A "ann" :: L (A "par" :: ps) :: L (A "ret" :: rs) :: rest) ->
+      (* sum types in declaration order: a payload may mention the types declared before *)
+      let decls = match rest with [L (A "sums" :: ds)] -> ds | [] -> [] | _ -> failwith "ann sums" in
+      let sums = List.fold_left (fun acc d -> match d with
+        | L (nm :: cs) -> acc @ [(num nm, List.map (function A "-" -> None | t -> Some (ty_of acc t)) cs)]
+        | _ -> failwith "sum decl") [] decls in
+      let ent = function L [x; t] -> (idn x, ty_of sums t) | _ -> failwith "ann entry" in
+      (List.map ent ps, List.map ent rs, List.map (fun (n, cs) -> (n_of_int n, cs)) sums)
   | _ -> failwith "ann"
 
 let ints l = "[" ^ String.concat "," (List.map (fun z -> string_of_int (int_of_z z)) l) ^ "]"
@@ -127,12 +133,12 @@ let run_case (line : string) : string =
   let fuel, n, k, vals = match hs with f :: n :: k :: v -> f, n, k, v | _ -> failwith "head" in
   let vals = Array.of_list vals in
   let rows = List.init n (fun t -> List.init k (fun c -> z_of_int vals.(t * k + c))) in
-  let (par, ret) = ann_of (parse_sx ann) in
+  let (par, ret, sums) = ann_of (parse_sx ann) in
   let p = prog_of (parse_sx body) in
-  let tc = match tc_prog (mkAnn par ret) p with
+  let tc = match tc_prog (mkAnn par ret sums) p with
     | Some info -> Printf.sprintf "\"tc\":\"ok\",\"inputs\":%d,\"ret_words\":%d" (int_of_nat info.ti_inputs) (int_of_nat (word_size info.ti_dsp_ret))
     | None -> "\"tc\":\"reject\"" in
-  let tc = tc ^ (match tc_prog (mkLenient par ret) p with Some _ -> ",\"lenient\":\"ok\"" | None -> ",\"lenient\":\"reject\"") in
+  let tc = tc ^ (match tc_prog (mkLenient par ret sums) p with Some _ -> ",\"lenient\":\"ok\"" | None -> ",\"lenient\":\"reject\"") in
   if n = 0 then "{" ^ tc ^ "}" else
   let run = try (match xrun (nat_of_int fuel) p rows with
     | OutOfFuel -> "{\"fuel\":true}"
